@@ -222,3 +222,82 @@ func vxH_C07_recreate() {
 	coll.Close()
 	store.Close()
 }
+
+func init() { vxRegister("vxH_C07_compactNow", vxH_C07_compactNow) }
+
+// vxH_C07_compactNow: Store.Persist(nil, CompactionForce) - "the higher
+// snapshot may be nil" - compacts what is already persisted, here after
+// rounds that wrote the top level and/or a child collection, while the
+// collection is quiescent or already closed. The store's snapshot equals
+// the reference before and after, also after a reopen.
+func vxH_C07_compactNow() {
+	fs := vxNewFS()
+	so := vxStoreOptions(fs)
+	so.CompactionLevelMaxSegments = 1
+	so.CompactionPercentage = -1
+	po := StorePersistOptions{CompactionConcern: CompactionConcern(vxChoose(2))} // rounds: disable or allow
+	store, coll, err := OpenStoreCollection(fs.dir, so, po)
+	vxAssert("open-ok", err == nil)
+	ref := vxNewNode()
+	names := []string{"a"}
+	none := map[string]bool{}
+	var K vxKey
+	K.n = 1
+	K.b[0] = 'k'
+	kb := vxKeyBytes(K)
+	for r := 0; r < 2; r++ {
+		b, berr := coll.NewBatch(4, 64)
+		vxAssert("newbatch-ok", berr == nil)
+		shape := vxChoose(3)
+		if shape != 1 {
+			ents := vxFixedSet()
+			vxFillBatch(b, ents)
+			ref.layers = append(ref.layers, ents)
+		}
+		if shape != 0 {
+			cb, cerr := b.NewChildCollectionBatch("a", BatchOptions{TotalOps: 2, TotalKeyValBytes: 16})
+			vxAssert("childbatch-ok", cerr == nil)
+			ents := vxFixedSet()
+			vxFillBatch(cb, ents)
+			if ref.kids["a"] == nil {
+				ref.kids["a"] = vxNewNode()
+			}
+			ref.kids["a"].layers = append(ref.kids["a"].layers, ents)
+		}
+		vxAssert("executebatch-ok", coll.ExecuteBatch(b, WriteOptions{}) == nil)
+		b.Close()
+		vxDrain(coll)
+	}
+	closedFirst := vxChoose(2) == 1
+	if closedFirst {
+		coll.Close()
+	}
+	check := func(tag string) {
+		ss, serr := store.Snapshot()
+		vxAssert("store-snapshot-ok", serr == nil)
+		vxCheckTree(tag+"-store", ss, ref, K, kb, names, none)
+		ss.Close()
+	}
+	check("before")
+	ns, perr := store.Persist(nil, StorePersistOptions{CompactionConcern: CompactionConcern(1 + vxChoose(2))}) // Allow or Force
+	vxAssert("compact-now-ok", perr == nil)
+	if ns != nil {
+		vxCheckTree("returned", ns, ref, K, kb, names, none)
+		ns.Close()
+	}
+	check("after")
+	if !closedFirst {
+		cs, cerr := coll.Snapshot()
+		vxAssert("coll-snapshot-ok", cerr == nil)
+		vxCheckTree("after-coll", cs, ref, K, kb, names, none)
+		cs.Close()
+		coll.Close()
+	}
+	store.Close()
+	vxQuiesce()
+	store, coll, err = OpenStoreCollection(fs.dir, so, po)
+	vxAssert("reopen-ok", err == nil)
+	check("reopened")
+	coll.Close()
+	store.Close()
+}
